@@ -23,14 +23,16 @@
 //!    T ∈ TERMINALS, chain depth d = 1..8 (quick) / 1..24 (thorough) (call parameter
 //!    a = d−1; `dclob` loads depth-dependent values into registers 0x11..0x3f and onto
 //!    the own stack so that every frame of the chain is different), caller variants:
-//!    the 5 flag variants x coins {0,1,all} of base x gas {0, GAS_SOME, all}.
+//!    the 5 flag variants x coins {0,1,all} of base x gas {GAS_SOME, all}.
 //!
 //!  The script (caller): progkit prelude; cfei 112 and 8 fingerprint words + a copy of
 //!    the call structure (A, a, b) on its stack; aloc 16 + a word on its heap; call
 //!    operands in 0x3c..0x3f; fingerprints (small / bit-inverted, all distinct) in ALL
 //!    other program registers 0x10..0x3b; FLAG; optionally one instruction that leaves
 //!    $err = 1 (div by zero, unsafemath) or $of != 0 (mul overflow, wrapping);
-//!    CALL; `lw 0x10 $hp 0`; `ret $one`.
+//!    CALL; `lw 0x10 $hp 0`; `ret $one`. (The script prefix up to the CALL does not depend
+//!    on the callee, so it is executed once per caller variant and the VM is cloned per
+//!    case, with the case's storage installed, right before the CALL.)
 //!  Callee letters: clobber (movi into all 48 program registers) | cfei+write own stack |
 //!    aloc 8 + write | aloc 4096 + write first/last word | flag 3 + $err | flag 2 + $of |
 //!    nestB (call B forwarding $bal and all gas, then `lw $hp`) | rec (if a != 0: call
@@ -90,6 +92,7 @@ use fuel_types::{
 use fuel_vm::{
     call::CallFrame,
     context::Context,
+    storage::MemoryStorage,
 };
 use progkit::{
     off,
@@ -195,8 +198,8 @@ fn fingerprint_ins(reg: u8) -> Vec<Instruction> {
     v
 }
 
-/// The caller script (after the progkit prelude). Returns the instructions and the
-/// index (within them) of the CALL.
+/// The caller script (after the progkit prelude); its last three instructions are
+/// CALL, `lw 0x10 $hp 0`, `ret $one`.
 fn script_for(v: &Variant) -> Vec<Instruction> {
     let mut s = vec![
         // own stack: 8 fingerprint words + call structure
@@ -526,9 +529,26 @@ enum Pre {
     },
 }
 
-fn run_monitor(env: &Env, script: &[Instruction], want_log: bool) -> Report {
+/// The caller script of `v` executed up to (not including) its CALL. Nothing before the
+/// CALL reads the storage, so the same prepared VM serves every world ("prepare once,
+/// clone per case"); `run_monitor` installs the world's storage before continuing.
+fn prepared_vm(world: &World, v: &Variant) -> Vm {
+    let script = script_for(v);
+    let mut vm = world.vm_after_prelude(&script, GAS_LIMIT);
+    for _ in 0..script.len() - 3 {
+        assert_eq!(vmkit::step(&mut vm), Step::Proceed, "harness: the caller script must reach its CALL");
+    }
+    vm
+}
+
+fn run_monitor(env: &Env, prepared: &Vm, want_log: bool) -> Report {
     let mut rep = Report::default();
-    let mut vm = env.world.vm_after_prelude(script, GAS_LIMIT);
+    let mut vm = prepared.clone();
+    {
+        let st: &mut MemoryStorage = vm.as_mut();
+        *st = env.world.storage.clone();
+    }
+    // start of the script's stack (in script context $ssp never moves)
     let base = vmkit::reg(&vm, RegId::SSP);
     let mut pend: Vec<Pending> = vec![];
     // Some(word the callee left at its $hp) right after a return
@@ -563,7 +583,7 @@ fn run_monitor(env: &Env, script: &[Instruction], want_log: bool) -> Report {
                     rc,
                     s0: Pending {
                         regs: pre,
-                        stack: read_vec(&vm, base, pre[SP] - base).expect("harness: caller stack readable"),
+                        stack: read_vec(&vm, base, pre[SP].saturating_sub(base)).unwrap_or_default(),
                         frames: vm.verif_call_stack().to_vec(),
                         context: vm.context().clone(),
                         to,
@@ -615,7 +635,7 @@ fn run_monitor(env: &Env, script: &[Instruction], want_log: bool) -> Report {
         }
         let receipts_before = vm.receipts().len();
         let below_before = match &p {
-            Pre::SwBelowSsp { .. } => read_vec(&vm, base, pre[SSP] - base),
+            Pre::SwBelowSsp { .. } => read_vec(&vm, base, pre[SSP].saturating_sub(base)),
             _ => None,
         };
 
@@ -642,12 +662,15 @@ fn run_monitor(env: &Env, script: &[Instruction], want_log: bool) -> Report {
                     rep.s1 += 1;
                     let d = depth + 1;
                     rep.max_depth = rep.max_depth.max(d as u64);
-                    let cs = call_struct.expect("CALL proceeded: call structure was readable");
-                    let asset = asset.expect("CALL proceeded: asset id was readable");
+                    // (a CALL that proceeds with unreadable operands shows up as frame mismatches below)
+                    let cs = call_struct.unwrap_or_else(|| vec![0; 48]);
+                    let asset = asset.unwrap_or_else(|| vec![0; 32]);
                     let to = s0.to;
                     let code = env.codes.iter().find(|(id, _)| *id == to).map(|(_, c)| c.clone());
                     let Some(code) = code else {
-                        panic!("harness: CALL entered a contract the harness did not deploy: {to}")
+                        rep.v("C34:S1:unknown-callee", format!("depth {d}: CALL entered {to}, which is not a deployed contract of this world"));
+                        rep.outcome = "unknown-callee".into();
+                        return rep
                     };
                     let padded = pad8(code.len());
                     if code.len() % 8 != 0 {
@@ -725,7 +748,7 @@ fn run_monitor(env: &Env, script: &[Instruction], want_log: bool) -> Report {
                             }
                         }
                     }
-                    match read_vec(&vm, base, pre[SP] - base) {
+                    match read_vec(&vm, base, pre[SP].saturating_sub(base)) {
                         Some(m) if m == s0.stack => {}
                         _ => rep.v("C34:S1:caller-stack", format!("depth {d}: the CALL itself changed the caller's stack bytes [{base}, {})", pre[SP])),
                     }
@@ -756,7 +779,7 @@ fn run_monitor(env: &Env, script: &[Instruction], want_log: bool) -> Report {
                             && *param2 == word(&cs, 40) => {}
                         other => rep.v("C34:S1:receipt", format!("depth {d}: receipts pushed by the CALL: {other:?}")),
                     }
-                    rep.events.extend([1, d as u64, to.as_ref()[0] as u64, post[BAL], post[SSP] - post[FP], post[CGAS], post[HP]]);
+                    rep.events.extend([1, d as u64, to.as_ref()[0] as u64, post[BAL], post[SSP].wrapping_sub(post[FP]), post[CGAS], post[HP]]);
                     if want_log {
                         rep.log.push(format!(
                             "S1 depth {d}: to {:02x}.. $fp {} $ssp=$sp {} $bal {} $cgas {} $flag {} (caller $flag {} $of {:#x} $err {})",
@@ -842,7 +865,7 @@ fn run_monitor(env: &Env, script: &[Instruction], want_log: bool) -> Report {
                             }
                             _ => unreachable!(),
                         }
-                        match read_vec(&vm, base, s0.regs[SP] - base) {
+                        match read_vec(&vm, base, s0.regs[SP].saturating_sub(base)) {
                             Some(m) if m == s0.stack => {}
                             Some(m) => {
                                 let at = m.iter().zip(&s0.stack).position(|(a, b)| a != b).unwrap_or(0) as u64 + base;
@@ -945,7 +968,7 @@ fn run_monitor(env: &Env, script: &[Instruction], want_log: bool) -> Report {
             }
             Pre::SwBelowSsp { addr } => {
                 rep.count("sw below $ssp inside a call");
-                let unchanged = read_vec(&vm, base, pre[SSP] - base) == below_before;
+                let unchanged = read_vec(&vm, base, pre[SSP].saturating_sub(base)) == below_before;
                 if s != Step::Panic(PanicReason::MemoryOwnership) || !unchanged {
                     let region = if addr + 8 <= pre[FP] { "caller" } else { "frame-or-code" };
                     rep.v(
@@ -999,7 +1022,7 @@ fn run_monitor(env: &Env, script: &[Instruction], want_log: bool) -> Report {
         if finished {
             // end of the execution: every pending caller's stack is still intact
             for (i, s0) in pend.iter().enumerate() {
-                match read_vec(&vm, base, s0.regs[SP] - base) {
+                match read_vec(&vm, base, s0.regs[SP].saturating_sub(base)) {
                     Some(m) if m == s0.stack => {}
                     _ => rep.v(
                         "C34:end:caller-stack",
@@ -1068,9 +1091,16 @@ struct Acc {
     samples: Vec<(u64, Value)>,
 }
 
-fn run_one(env: &Env, letters: &[String], terminal: &str, v: &Variant, acc: &mut Acc, sample_score: impl Fn(&Report) -> u64) {
-    let script = script_for(v);
-    let rep = run_monitor(env, &script, false);
+fn run_one(
+    env: &Env,
+    letters: &[String],
+    terminal: &str,
+    v: &Variant,
+    prepared: &Vm,
+    acc: &mut Acc,
+    sample_score: impl Fn(&Report) -> u64,
+) {
+    let rep = run_monitor(env, prepared, false);
     acc.runs += 1;
     acc.s1 += rep.s1;
     acc.s2 += rep.s2;
@@ -1094,7 +1124,7 @@ fn run_one(env: &Env, letters: &[String], terminal: &str, v: &Variant, acc: &mut
     }
     let score = sample_score(&rep);
     if score > 0 && acc.samples.iter().all(|(s, _)| *s < score) {
-        let logged = run_monitor(env, &script, true);
+        let logged = run_monitor(env, prepared, true);
         let mut c = case_json(letters, terminal, v);
         c["trace"] = json!(logged.log);
         c["result"] = json!(logged.outcome);
@@ -1150,7 +1180,9 @@ fn part2_variants(depth: u32) -> Vec<Variant> {
     let mut v = vec![];
     for flagvar in 0..FLAGVARS.len() {
         for coins in 0..3 {
-            for gas in (0..3).rev() {
+            // forwarded gas 0 ends every chain at the first callee instruction whatever the
+            // depth; that case is part 1's
+            for gas in (1..3).rev() {
                 v.push(Variant {
                     flagvar,
                     coins,
@@ -1172,7 +1204,7 @@ fn explore(ctx: &Ctx) {
     ctx.rule(
         "part 1: every callee body = letter sequence of length <= k over LETTERS + one of TERMINALS, under all 90 caller variants \
          (recursion budget 1); part 2: every body [dclob, X, rec, Y, T] (X,Y in {none} + LETTERS without rec) for every chain depth \
-         1..D under 45 caller variants; each run is executed step by step and every CALL/RET/RETD in it is checked (S0/S1/S2). A run \
+         1..D under 30 caller variants; each run is executed step by step and every CALL/RET/RETD in it is checked (S0/S1/S2). A run \
          is non-trivial when at least one CALL entered its callee; distinct = distinct sequences of observed (S1: depth, callee, $bal, \
          frame+code size, $cgas, $hp | S2: depth, $ret, $retl, callee heap size, $cgas | final outcome)",
     );
@@ -1198,7 +1230,11 @@ fn explore(ctx: &Ctx) {
     let k = ctx.pick(2u32, 3u32);
     let nseq = space::seq_count(LETTERS.len() as u64, k);
     let nbodies = nseq * TERMINALS.len() as u64;
-    let variants1 = part1_variants();
+    let reference = env_for(&[], TERMINALS[0]);
+    let variants1: Vec<(Variant, Vm)> = part1_variants()
+        .into_iter()
+        .map(|v| (v, prepared_vm(&reference.world, &v)))
+        .collect();
     let mut tot1 = Acc::default();
     space::par_chunks(
         nbodies,
@@ -1215,8 +1251,8 @@ fn explore(ctx: &Ctx) {
             let letters = names(&seq);
             let env = env_for(&letters, terminal);
             acc.bodies += 1;
-            for v in &variants1 {
-                run_one(&env, &letters, terminal, v, acc, |rep| {
+            for (v, prepared) in &variants1 {
+                run_one(&env, &letters, terminal, v, prepared, acc, |rep| {
                     // prefer successful runs with several checked returns and a heap read-back
                     if rep.outcome == "script:return" && v.flagvar >= 3 && v.coins == 2 {
                         rep.s2 * 10 + rep.counters.get("RETD data on the heap compared after return").copied().unwrap_or(0)
@@ -1245,6 +1281,14 @@ fn explore(ctx: &Ctx) {
     let mut opts: Vec<Option<usize>> = vec![None];
     opts.extend((0..LETTERS.len()).filter(|i| *i != REC).map(Some));
     let nb2 = (opts.len() * opts.len() * TERMINALS.len()) as u64;
+    let variants2: Vec<Vec<(Variant, Vm)>> = (1..=dmax)
+        .map(|depth| {
+            part2_variants(depth)
+                .into_iter()
+                .map(|v| (v, prepared_vm(&reference.world, &v)))
+                .collect()
+        })
+        .collect();
     let mut tot2 = Acc::default();
     space::par_chunks(
         nb2,
@@ -1270,8 +1314,8 @@ fn explore(ctx: &Ctx) {
                     acc.skipped += 1;
                     continue
                 }
-                for v in part2_variants(depth) {
-                    run_one(&env, &letters, terminal, &v, acc, |rep| {
+                for (v, prepared) in &variants2[depth as usize - 1] {
+                    run_one(&env, &letters, terminal, v, prepared, acc, |rep| {
                         if rep.outcome == "script:return" && v.flagvar == 4 && v.coins == 2 && depth == dmax {
                             rep.s2 * 10 + letters.len() as u64
                         } else {
@@ -1306,7 +1350,7 @@ fn explore(ctx: &Ctx) {
             gas: 2,
             budget: 1,
         };
-        let rep = run_monitor(&env, &script_for(&v), true);
+        let rep = run_monitor(&env, &prepared_vm(&env.world, &v), true);
         let mut c = case_json(&letters, TERMINALS[0], &v);
         c["trace"] = json!(rep.log);
         c["result"] = json!(rep.outcome);
@@ -1330,7 +1374,7 @@ fn replay(case: &Value, ctx: &Ctx) {
     let terminal = case["terminal"].as_str().expect("terminal");
     let v = variant_from(&case["variant"]);
     let env = env_for(&letters, terminal);
-    let rep = run_monitor(&env, &script_for(&v), false);
+    let rep = run_monitor(&env, &prepared_vm(&env.world, &v), false);
     for (k, what) in rep.viols {
         ctx.violation(k, what, case.clone());
     }
